@@ -39,6 +39,7 @@ type Case struct {
 	Shape    string `json:"shape"` // "full" | "sparse"
 	Mode     string `json:"mode"`  // "status" | "translate"
 	Producible bool `json:"producible"`
+	Slow       bool `json:"slow,omitempty"` // the kernel answers later than the front end's configured timeout
 }
 
 type Result struct {
@@ -153,6 +154,21 @@ func buildCases(st map[string]int) []Case {
 			}
 		}
 	}
+	// a kernel that answers later than the front end's configured (shutdown) timeout: the reply must still be
+	// rendered and delivered, for every endpoint
+	for _, ep := range endpoints {
+		if len(producible[ep.Kind]) == 0 {
+			continue
+		}
+		s0 := producible[ep.Kind][0]
+		n0 := ""
+		for _, n := range names {
+			if st[n] == s0 {
+				n0 = n
+			}
+		}
+		cases = append(cases, Case{Endpoint: ep.Name, Kind: ep.Kind, Status: s0, Name: n0, Form: "response", Shape: "full", Mode: "status", Producible: true, Slow: true})
+	}
 	// request translation: every kind, several generated contents
 	for i := 0; i < 40; i++ {
 		for _, k := range kindsInOrder {
@@ -205,7 +221,7 @@ func main() {
 		}
 		// find the same case in today's list
 		for _, c := range cases {
-			if c.Endpoint == rf.Case.Endpoint && c.Status == rf.Case.Status && c.Form == rf.Case.Form && c.Shape == rf.Case.Shape && c.Mode == rf.Case.Mode {
+			if c.Endpoint == rf.Case.Endpoint && c.Status == rf.Case.Status && c.Form == rf.Case.Form && c.Shape == rf.Case.Shape && c.Mode == rf.Case.Mode && c.Slow == rf.Case.Slow {
 				res, died := runInChildren([]Case{c}, *seed, os.TempDir())
 				for _, r := range res {
 					for i, p := range r.Problems {
